@@ -1,6 +1,6 @@
 SPECIFICATION Spec
 CONSTANTS
-  MaxRuns = 6
+  MaxRuns = 5
   TextLens = {1, 2, 3, 8189, 8190, 8191, 8192, 8193}
   OtherLens = {1, 2}
   Bug = "none"
